@@ -113,12 +113,15 @@ class FakeRaw:
         if self.shim.target is None:
             return self._send_scripted(data)
         if self.dead:
+            if self.shim.dead_mode == "zero":
+                return 0          # a dead stream that keeps accepting nothing: a send loop must give up
             raise BrokenPipeError("broken pipe")
         kind = self._fault_now("send")
         if kind is not None:
             self.shim.fault_fired = True
             self._die()
             if kind == "zero":
+                self.shim.dead_mode = "zero"
                 return 0
             if kind == "timeout":
                 raise TimeoutError("timed out")
